@@ -17,18 +17,20 @@ func init() {
 		Explanation: "End-agreement and counter rules over queue/queue.go, queue/lqueue.go and the list primitives they use (engines E7/E4). Slice-backed Queue: AG6 Enqueue stores append(items, item) exactly once on every path; Dequeue returns items[0] and stores items[1:], Peek reads items[0], all dominated by the non-empty guard; the empty path returns the zero value (and an error) and writes nothing (PT3); " +
 			"Search is a full forward scan comparing items[i] with the probe (PT5); Size is len(items); Clear stores nil; items is written nowhere else. With Go's append/re-slice semantics these rules amount to FIFO behaviour of the slice-backed queue. " +
 			"Linked LQueue: AG4 n is incremented exactly once with exactly one Append(item), decremented exactly once with exactly one Shift and only where n is known positive under the same lock, the empty path returns the zero value without touching the list; AG1 insertion at the tail (Append), removal and Peek at the head (Shift/First); " +
-			"the positional list primitives never compare element values (duplicates), the read-only ones write nothing; SI1 no state beyond {items,mu} / {list,mu,n}.",
+			"the positional list primitives never compare element values (duplicates), the read-only ones write nothing; SI1 no state beyond {items,mu} / {list,mu,n}. " +
+			"PH1/PH2 the drained state (premise, decided on the types: list.DList embeds its head node by value and therefore always keeps one node): Enqueue calls list.Append only where n before the increment is known positive (n is followed through the n++ of the same function) and stores the item into the list's own head node where it is zero, exactly one of the two on every path; Peek and Search consult the list only where n is known positive and answer the zero value / false otherwise.",
 		Assumptions: []string{"go/ssa faithful to the source", "Go append/re-slice semantics", "locking discipline is C01/C02"},
-		NotDecided:  []string{"the order of values delivered by the linked variant (depends on DList's by-value head: after a drain and refill the stale head is delivered first - visible only by running)", "capacity growth"},
+		NotDecided:  []string{"the order in which DList.Append and DList.Shift themselves link and unlink nodes (C19 territory)", "capacity growth"},
 		Run:         func(p *core.Program, r *core.Report) { runSeq(p, r, true) },
 	})
 	register(&Check{
 		ID: "C06",
 		Explanation: "End-agreement and counter rules over stack/stack.go, stack/lstack.go and the list primitives they use (engines E7/E4). Slice-backed Stack: AG6 Push stores append(items, item) exactly once on every path; Pop returns items[len-1] and stores items[:len-1], Peek reads items[len-1], all dominated by the non-empty guard; the empty path returns the zero value and writes nothing (PT3); " +
 			"Search is a full forward scan comparing items[i] with the probe (PT5); Size is len(items); items is written nowhere else. With Go's append/re-slice semantics these rules amount to LIFO behaviour of the slice-backed stack. " +
-			"Linked LStack: AG4 n is incremented exactly once with exactly one Append(item), decremented at most once and only where n is known positive, with exactly one list Pop; AG1 insertion and removal at the tail (Append/Pop), Peek at the tail (Last); the positional list primitives never compare element values, the read-only ones write nothing; SI1 no state beyond {items,mu} / {list,mu,n}.",
+			"Linked LStack: AG4 n is incremented exactly once with exactly one Append(item), decremented at most once and only where n is known positive, with exactly one list Pop; AG1 insertion and removal at the tail (Append/Pop), Peek at the tail (Last); the positional list primitives never compare element values, the read-only ones write nothing; SI1 no state beyond {items,mu} / {list,mu,n}. " +
+			"PH1/PH2 the drained state, as for the queue (Push / Peek / Search). RS2 which node list.(*DList).Pop hands back: the node it unlinks on the unlinking path (a copy of *x.next taken before x.next = nil, or that pointer), a copy of the head on the single-node path.",
 		Assumptions: []string{"go/ssa faithful to the source", "Go append/re-slice semantics", "locking discipline is C01/C02"},
-		NotDecided:  []string{"the value returned by the linked variant's Pop (DList.Pop hands back the node before the one it unlinks; the pinned Example_linkedList expects that) and its behaviour after the stack was emptied"},
+		NotDecided:  []string{"the order in which DList.Append links nodes (C19 territory)"},
 		Run:         func(p *core.Program, r *core.Report) { runSeq(p, r, false) },
 	})
 }
@@ -533,11 +535,21 @@ func runSeq(p *core.Program, r *core.Report, queue bool) {
 		lc := listCalls(fn)
 		apps := lc["Append"]
 		okA := len(apps) == 1 && len(lc) == 1
+		byValue, known := dlistByValue(c)
 		if okA {
 			isApp := func(in ssa.Instruction) bool { return in == ssa.Instruction(apps[0]) }
-			okA = path.MaxCount(fn, isApp) == 1 && path.MinCount(fn, isApp) == 1 && apps[0].Common().Args[1] == ssa.Value(paramByName(fn, "item")) && isLoadOfField(apps[0].Common().Args[0], ln, "list")
+			minApp := 1
+			if byValue {
+				minApp = 0 // the drained path stores into the placeholder node instead (PH1)
+			}
+			okA = path.MaxCount(fn, isApp) == 1 && path.MinCount(fn, isApp) >= minApp && apps[0].Common().Args[1] == ssa.Value(paramByName(fn, "item")) && isLoadOfField(apps[0].Common().Args[0], ln, "list")
 		}
-		c.ob("AG1", fname, "insertion is one Append(item) at the tail", c.fpos(fn), okA, "the insertion must call list.Append(item) exactly once on every path and use no other list operation")
+		c.ob("AG1", fname, "insertion is one Append(item) at the tail", c.fpos(fn), okA, "the insertion must call list.Append(item) exactly once (on every path that does not fill the drained container's own node) and use no other list operation")
+		if !known {
+			c.und("PH1", fname, "list.DList's representation", c.fpos(fn), "list.DList is no longer a struct: whether it can be empty, and with it what the insertion owes a drained container, cannot be determined")
+		} else if byValue && len(apps) > 0 {
+			checkDrainedInsert(c, fn, ln, apps)
+		}
 	}
 	// removal
 	{
@@ -598,15 +610,36 @@ func runSeq(p *core.Program, r *core.Report, queue bool) {
 			}
 		}
 	}
+	if !queue && dPop != nil {
+		checkDListPop(c, dPop, lRem, ln)
+	}
 	// peek, search, size, clear
 	{
 		lc := listCalls(lPeek)
 		okP := len(lc) == 1 && len(lc[peekName]) == 1 && peekPrim != nil
-		ret := accessorReturnDefer(lPeek)
-		if okP && ret != ssa.Value(lc[peekName][0].(ssa.Value)) {
-			okP = false
+		byValue, _ := dlistByValue(c)
+		if okP {
+			call := lc[peekName][0]
+			nCall := 0
+			for _, alt := range returnAlternatives(lPeek, 0) {
+				if alt.val == call.(ssa.Value) {
+					nCall++
+					continue
+				}
+				// the empty container: the zero value, where n is known to be zero
+				at, found := nGuard(lPeek, alt.blk, ln)
+				if !(byValue && zeroResult(alt.val, alt.blk) && found && onlyZero(at)) {
+					okP = false
+				}
+			}
+			if nCall == 0 {
+				okP = false
+			}
+			if byValue {
+				checkDrainedObserver(c, lPeek, ln, call, "Peek")
+			}
 		}
-		c.ob("AG1", p.FuncName(lPeek), "Peek reads the removal end", c.fpos(lPeek), okP, "Peek must return list."+peekName+"(): the element the next removal hands out")
+		c.ob("AG1", p.FuncName(lPeek), "Peek reads the removal end", c.fpos(lPeek), okP, "Peek must return list."+peekName+"(): the element the next removal hands out (or the zero value where n is zero)")
 		nW := 0
 		for _, in := range path.Instrs(lPeek) {
 			if isN(in) {
@@ -624,15 +657,50 @@ func runSeq(p *core.Program, r *core.Report, queue bool) {
 				ex, ok := v.(*ssa.Extract)
 				return ok && ex.Tuple == find && ex.Index == 1
 			}
+			if byValue {
+				checkDrainedObserver(c, lSearch, ln, lc["Find"][0], "Search")
+			}
 			for _, alt := range returnAlternatives(lSearch, 0) {
 				okA := isFound(alt.val)
 				if bc, isC := path.BoolConst(alt.val); isC {
 					okA = boolGuard(lSearch, alt.blk, isFound, bc)
+					if at, found := nGuard(lSearch, alt.blk, ln); !okA && !bc && byValue && found && onlyZero(at) {
+						okA = true // the empty container holds nothing
+					}
+					if !okA && !bc && byValue && len(alt.blk.Preds) > 1 {
+						// "if n > 0 { if found { return true } }; return false": every way
+						// into the return carries "not found" or "n is zero"
+						okA = true
+						for _, pr := range alt.blk.Preds {
+							at, found := nGuardEdge(lSearch, pr, alt.blk, ln)
+							if found && onlyZero(at) {
+								continue
+							}
+							if iff := path.BlockIf(pr); iff != nil && len(pr.Succs) == 2 {
+								v, neg := iff.Cond, false
+								for {
+									if u, ok := v.(*ssa.UnOp); ok && u.Op == token.NOT {
+										neg, v = !neg, u.X
+										continue
+									}
+									break
+								}
+								onTrue := pr.Succs[0] == alt.blk
+								if isFound(v) && (onTrue == neg) {
+									continue
+								}
+							}
+							if boolGuard(lSearch, pr, isFound, false) {
+								continue
+							}
+							okA = false
+						}
+					}
 				}
 				c.ob("AG1", p.FuncName(lSearch), "Search answers what the lookup found", p.InstrPos(alt.ret), okA, "Search's answer is not the found-flag of list.Find(item) (nor a constant on the edge where the flag has that value)")
 			}
 		}
-		ret = accessorReturnDefer(lSize)
+		ret := accessorReturnDefer(lSize)
 		c.ob("CM1", p.FuncName(lSize), "Size reports n", c.fpos(lSize), ret != nil && isLoadOfField(ret, ln, "n"), "Size must return n")
 		for _, f := range all2 {
 			for _, in := range path.Instrs(f) {
